@@ -38,6 +38,11 @@ def full_poly_snap(g):
             "index": [key(v.id) for v in g.index], "dtype": str(np.asarray(g).dtype)}
 
 
+def json_of(o):
+    import json as _json
+    return _json.loads(_json.dumps(o.to_json(), default=lambda x: x.to_json() if hasattr(x, "to_json") else str(x)))
+
+
 def var_sig(v):
     """what a variable object IS: its class and every instance attribute (applications subclass puan.variable and hang data
     on their items; the configurator itself tags propositions with `prio`)"""
@@ -83,7 +88,11 @@ def do_case(ctx, inp):
         o2 = pg.from_b64(s)
     except Exception as e:
         ctx.fail("from_b64-raised-on-own-to_b64-output", {"exception": f"{type(e).__name__}: {str(e)[:200]}", "model": t}); return
-    if type(o2) is not type(o) or snap(o2) != t or o2.to_text() != o.to_text():
+    try:
+        same = type(o2) is type(o) and snap(o2) == t and o2.to_text() == o.to_text()
+    except Exception as e:
+        ctx.fail("unpacked-object-cannot-be-read", {"exception": f"{type(e).__name__}: {str(e)[:200]}", "model": t}); return
+    if not same:
         ctx.fail("proposition-round-trip-differs", {"before": t, "after": snap(o2)}); return
     if var_sigs(o2) != var_sigs(o):
         d = [(x, y) for x, y in zip(var_sigs(o), var_sigs(o2)) if x != y][:3]
